@@ -9,7 +9,7 @@ import (
 )
 
 // accessorForms checks the normal forms of Len/Cap/Length/Capacity (C02-R3, C13-A3).
-func accessorForms(c *Checker, rule string) {
+func accessorForms(c *Checker, rule string, only ...string) {
 	type acc struct {
 		name string
 		want func(b buf) *Term
@@ -20,6 +20,17 @@ func accessorForms(c *Checker, rule string) {
 		{"Length", func(b buf) *Term { return b.length() }},
 		{"Capacity", func(b buf) *Term { return specFloorDiv0(b.capT(), b.ch()) }},
 	} {
+		if len(only) > 0 {
+			skip := true
+			for _, n := range only {
+				if n == a.name {
+					skip = false
+				}
+			}
+			if skip {
+				continue
+			}
+		}
 		fn := c.anchor(rule, "(*Buffer[T])."+a.name)
 		if fn == nil {
 			continue
@@ -191,6 +202,8 @@ func checkC04(c *Checker) {
 	if nB == 0 {
 		c.refuted("C04-B", "Buffer.AppendSample/room", c.pos(fn.Pos()), "no path appends when there is room", "")
 	}
+	c.rule("C04-L", "the reported per-channel length is ceil(Len/channels) and the total capacity is cap(data)", 2)
+	accessorForms(c, "C04-L", "Length", "Cap")
 }
 
 func checkC14(c *Checker) {
